@@ -5,7 +5,8 @@ CONSTANTS
   Steps = {1, 2}
   Overwrite = FALSE
   ZeroReports = "keys"
+  Attempts = 2
 INVARIANTS TypeOK Conservation NonNegative NoDoubleCount InFlightIsPending
-PROPERTY DeliveredMonotone OnlyAckDelivers
+PROPERTY DeliveredMonotone OnlyAckDelivers OnlyAckClearsPending PendingTwiceKeeps
 ACTION_CONSTRAINT Dump
 VIEW View
